@@ -143,13 +143,13 @@ func fenceMatch(
 					detect = "inside"
 				}
 			} else {
+				// The object is outside the fence spatially, so testObject wasn't
+				// called above: the WHERE clauses still decide whether the fence
+				// has anything to say about it, for FSET as for SET.
+				if match, _ := sw.fieldMatch(details.obj); !match {
+					return nil
+				}
 				if details.command != "fset" {
-					// For cross detection, the object is outside the fence spatially,
-					// so testObject wasn't called above. We need to check WHERE clause
-					// before proceeding with cross detection.
-					if match, _ := sw.fieldMatch(details.obj); !match {
-						return nil
-					}
 					// Maybe the old object and new object create a line that crosses the fence.
 					// Must detect for that possibility.
 					if !nocross && details.old != nil {
